@@ -1,1 +1,413 @@
-pub fn run(_ctx: mc_core::Ctx) -> ! { mc_core::report::machinery_failure("todo") }
+//! C11 — Ed25519 signing and verification agree with RFC 8032.
+//! GRID; the single-bit tamper sets are complete for every (seed, message).
+//! Reference: ed25519-dalek (checked against the RFC 8032 section 7.1 vectors
+//! at start-up), SHA-512 from sha2 for the seed expansion.
+
+use ed25519_dalek::hazmat::{raw_sign, ExpandedSecretKey};
+use ed25519_dalek::{Signature as DSig, Signer, SigningKey, Verifier, VerifyingKey};
+use mc_core::{catch, cov, json, Ctx, Level, Value};
+use pallas_crypto::key::ed25519::{PublicKey, SecretKey, SecretKeyExtended, Signature};
+use rayon::prelude::*;
+use sha2::{Digest, Sha512};
+use std::sync::atomic::{AtomicU64, Ordering};
+
+const RFC: [(&str, &str, &str, &str); 3] = [
+    (
+        "9d61b19deffd5a60ba844af492ec2cc44449c5697b326919703bac031cae7f60",
+        "d75a980182b10ab7d54bfed3c964073a0ee172f3daa62325af021a68f707511a",
+        "",
+        "e5564300c360ac729086e2cc806e828a84877f1eb8e5d974d873e065224901555fb8821590a33bacc61e39701cf9b46bd25bf5f0595bbe24655141438e7a100b",
+    ),
+    (
+        "4ccd089b28ff96da9db6c346ec114e0f5b8a319f35aba624da8cf6ed4fb8a6fb",
+        "3d4017c3e843895a92b70aa74d1b7ebc9c982ccf2ec4968cc0cd55f12af4660c",
+        "72",
+        "92a009a9f0d4cab8720e820b5f642540a2b27b5416503f8fb3762223ebdb69da085ac1e43e15996e458f3613d0f11d8c387b2eaeb4302aeeb00d291612bb0c00",
+    ),
+    (
+        "c5aa8df43f9f837bedb7442f31dcb7b166d38535076f094b85ce3a2e0b4458f7",
+        "fc51cd8e6218a1a38da47ed00230f0580816ed13ba3303ac5deb911548908025",
+        "af82",
+        "6291d657deec24024827e69c3abe01a30ce548a284743a445e3680d7db5ac3ac18ff9b538d16f290ae67f760984dc6594a7c15e9716ed28dc027beceea1ec40a",
+    ),
+];
+
+/// Group order L, little endian.
+const L: [u8; 32] = [
+    0xed, 0xd3, 0xf5, 0x5c, 0x1a, 0x63, 0x12, 0x58, 0xd6, 0x9c, 0xf7, 0xa2, 0xde, 0xf9, 0xde, 0x14, 0, 0, 0, 0, 0, 0, 0, 0, 0, 0, 0, 0, 0, 0, 0, 0x10,
+];
+fn s_canonical(s: &[u8]) -> bool {
+    for i in (0..32).rev() {
+        if s[i] < L[i] {
+            return true;
+        }
+        if s[i] > L[i] {
+            return false;
+        }
+    }
+    false
+}
+
+fn pattern(len: usize, salt: u64) -> Vec<u8> {
+    let mut x: u64 = 0x243f_6a88_85a3_08d3 ^ salt.wrapping_mul(0x9e37_79b9_7f4a_7c15);
+    (0..len)
+        .map(|_| {
+            x = x.wrapping_mul(6364136223846793005).wrapping_add(1442695040888963407);
+            (x >> 56) as u8
+        })
+        .collect()
+}
+
+fn expand(seed: &[u8; 32]) -> [u8; 64] {
+    let mut h: [u8; 64] = Sha512::digest(seed).into();
+    h[0] &= 0b1111_1000;
+    h[31] &= 0b0011_1111;
+    h[31] |= 0b0100_0000;
+    h
+}
+
+fn ref_verify(key: &[u8; 32], msg: &[u8], sig: &[u8; 64]) -> (bool, &'static str) {
+    let Ok(vk) = VerifyingKey::from_bytes(key) else { return (false, "key-does-not-decode") };
+    if !s_canonical(&sig[32..]) {
+        // dalek rejects this too; classified here for the coverage metric
+        return (vk.verify(msg, &DSig::from_bytes(sig)).is_ok(), "s-not-canonical");
+    }
+    (vk.verify(msg, &DSig::from_bytes(sig)).is_ok(), "equation")
+}
+
+fn pallas_verify(key: &[u8; 32], msg: &[u8], sig: &[u8; 64]) -> bool {
+    PublicKey::from(*key).verify(msg, &Signature::from(*sig))
+}
+
+#[derive(Default)]
+struct Counters {
+    evals: AtomicU64,
+    sign_cases: AtomicU64,
+    tamper_equation: AtomicU64,
+    tamper_parse: AtomicU64,
+    tamper_accepted_by_both: AtomicU64,
+    ext_cases: AtomicU64,
+}
+
+pub fn run(ctx: Ctx) -> ! {
+    // ---- reference self-check on the RFC 8032 vectors
+    for (sk, pk, msg, sig) in RFC {
+        let seed: [u8; 32] = hex::decode(sk).unwrap().try_into().unwrap();
+        let m = hex::decode(msg).unwrap();
+        let d = SigningKey::from_bytes(&seed);
+        if hex::encode(d.verifying_key().as_bytes()) != pk || hex::encode(d.sign(&m).to_bytes()) != sig {
+            mc_core::report::machinery_failure("C11: reference implementation does not reproduce the RFC 8032 test vectors");
+        }
+        // and the expanded-key path of the reference
+        let esk = ExpandedSecretKey::from_bytes(&expand(&seed));
+        let vk = VerifyingKey::from(&esk);
+        if hex::encode(vk.as_bytes()) != pk || hex::encode(raw_sign::<Sha512>(&esk, &m, &vk).to_bytes()) != sig {
+            mc_core::report::machinery_failure("C11: reference expanded-key signing does not reproduce the RFC 8032 test vectors");
+        }
+    }
+
+    // ---- grid
+    let mut seeds: Vec<[u8; 32]> = vec![[0u8; 32], [0xff; 32], core::array::from_fn(|i| i as u8)];
+    for (sk, _, _, _) in RFC {
+        seeds.push(hex::decode(sk).unwrap().try_into().unwrap());
+    }
+    let nseeds = if ctx.thorough { 32 } else { 8 };
+    let mut k = 0u64;
+    while seeds.len() < nseeds {
+        seeds.push(pattern(32, 1000 + k).try_into().unwrap());
+        k += 1;
+    }
+    let mut lens: Vec<usize> = if ctx.thorough { (0..=130).collect() } else { (0..=16).collect() };
+    if !ctx.thorough {
+        lens.extend([63, 64, 65, 127, 128, 129]);
+    }
+    lens.push(1024);
+    let cases: Vec<(usize, usize)> = (0..seeds.len()).flat_map(|s| lens.iter().map(move |&l| (s, l))).collect();
+    let c = Counters::default();
+
+    cases.par_iter().for_each(|&(si, len)| {
+        let seed = seeds[si];
+        let msg = pattern(len, (si as u64) << 16 | len as u64);
+        let case = || json!({"seed": hex::encode(seed), "message": hex::encode(&msg)});
+
+        // reference
+        let dsk = SigningKey::from_bytes(&seed);
+        let dpk = dsk.verifying_key().to_bytes();
+        let dsig = dsk.sign(&msg).to_bytes();
+
+        // ---- standard key: derive, sign, verify
+        c.evals.fetch_add(1, Ordering::Relaxed);
+        let r = catch(|| {
+            let sk = SecretKey::from(seed);
+            let pk = sk.public_key();
+            let sig = sk.sign(&msg);
+            let ok = pk.verify(&msg, &sig);
+            let pkb: [u8; 32] = pk.into();
+            let sgb: [u8; 64] = sig.as_ref().try_into().unwrap();
+            (pkb, sgb, ok)
+        });
+        let (pkb, sgb) = match r {
+            Err(p) => {
+                ctx.violation(p.site(), format!("SecretKey public_key/sign/verify panicked: {} at {}", p.message, p.location), case());
+                return;
+            }
+            Ok((pkb, sgb, ok)) => {
+                let mut good = true;
+                if pkb != dpk {
+                    good = false;
+                    ctx.violation("SecretKey::public_key:differs-from-rfc8032", format!("public key {} but RFC 8032 derivation gives {}", hex::encode(pkb), hex::encode(dpk)), case());
+                }
+                if sgb != dsig {
+                    good = false;
+                    ctx.violation("SecretKey::sign:differs-from-rfc8032", format!("signature {} but RFC 8032 signing gives {}", hex::encode(sgb), hex::encode(dsig)), case());
+                }
+                if !ok {
+                    good = false;
+                    ctx.violation("PublicKey::verify:rejects-own-signature", "signature made by SecretKey::sign does not verify under SecretKey::public_key".to_string(), case());
+                }
+                let (rv, _) = ref_verify(&pkb, &msg, &sgb);
+                if rv != ok {
+                    good = false;
+                    ctx.violation("PublicKey::verify:differs-from-reference", format!("pallas verdict {ok}, reference verdict {rv} on the key's own signature"), case());
+                }
+                if good {
+                    c.sign_cases.fetch_add(1, Ordering::Relaxed);
+                }
+                (pkb, sgb)
+            }
+        };
+
+        // ---- extended key expanded from the same seed
+        c.evals.fetch_add(1, Ordering::Relaxed);
+        let ext = expand(&seed);
+        match catch(|| {
+            let xk = SecretKeyExtended::from_bytes(ext).map_err(|e| e.to_string())?;
+            let pk = xk.public_key();
+            let sig = xk.sign(&msg);
+            let ok = pk.verify(&msg, &sig);
+            let pkb: [u8; 32] = pk.into();
+            let sgb: [u8; 64] = sig.as_ref().try_into().unwrap();
+            Ok::<_, String>((pkb, sgb, ok))
+        }) {
+            Err(p) => ctx.violation(p.site(), format!("SecretKeyExtended from_bytes/public_key/sign/verify panicked: {} at {}", p.message, p.location), case()),
+            Ok(Err(e)) => ctx.violation("SecretKeyExtended::from_bytes:rejects-clamped-key", format!("the clamped SHA-512 expansion of a seed was rejected: {e}"), json!({"extended_key": hex::encode(ext)})),
+            Ok(Ok((xpk, xsig, ok))) => {
+                let mut good = true;
+                if xpk != dpk {
+                    good = false;
+                    ctx.violation("SecretKeyExtended::public_key:differs-from-rfc8032", format!("extended key's public key {} but RFC 8032 gives {}", hex::encode(xpk), hex::encode(dpk)), json!({"extended_key": hex::encode(ext)}));
+                }
+                if xsig != dsig {
+                    good = false;
+                    ctx.violation("SecretKeyExtended::sign:differs-from-rfc8032", format!("extended key's signature {} but RFC 8032 gives {}", hex::encode(xsig), hex::encode(dsig)), json!({"extended_key": hex::encode(ext), "message": hex::encode(&msg)}));
+                }
+                if !ok || !ref_verify(&xpk, &msg, &xsig).0 {
+                    good = false;
+                    ctx.violation("PublicKey::verify:rejects-own-signature", "signature made by SecretKeyExtended::sign does not verify under its public key".to_string(), json!({"extended_key": hex::encode(ext), "message": hex::encode(&msg)}));
+                }
+                if good {
+                    c.ext_cases.fetch_add(1, Ordering::Relaxed);
+                }
+            }
+        }
+
+        // ---- every single-bit tampering of signature, key, message
+        let tamper = |what: &str, bit: usize, key: &[u8; 32], m: &[u8], sig: &[u8; 64]| {
+            c.evals.fetch_add(1, Ordering::Relaxed);
+            let (rv, class) = ref_verify(key, m, sig);
+            match catch(|| pallas_verify(key, m, sig)) {
+                Err(p) => ctx.violation(p.site(), format!("PublicKey::verify panicked on a tampered {what}: {} at {}", p.message, p.location), json!({"key": hex::encode(key), "message": hex::encode(m), "signature": hex::encode(sig)})),
+                Ok(pv) => {
+                    if pv != rv {
+                        ctx.violation(
+                            format!("PublicKey::verify:differs-from-reference:tampered-{what}:{}", if pv { "accepts" } else { "rejects" }),
+                            format!("{what} bit {bit} flipped: pallas verdict {pv}, reference verdict {rv} ({class})"),
+                            json!({"tampered": what, "bit": bit, "key": hex::encode(key), "message": hex::encode(m), "signature": hex::encode(sig)}),
+                        );
+                    } else if rv {
+                        c.tamper_accepted_by_both.fetch_add(1, Ordering::Relaxed);
+                    } else if class == "equation" {
+                        c.tamper_equation.fetch_add(1, Ordering::Relaxed);
+                    } else {
+                        c.tamper_parse.fetch_add(1, Ordering::Relaxed);
+                    }
+                }
+            }
+        };
+        // (descriptor list so that the verifications of one case run in parallel)
+        let mut jobs: Vec<(u8, usize)> = vec![];
+        jobs.extend((0..512).map(|b| (0u8, b)));
+        jobs.extend((0..256).map(|b| (1u8, b)));
+        jobs.extend((0..8 * msg.len()).map(|b| (2u8, b)));
+        if !msg.is_empty() {
+            jobs.push((3, 8 * msg.len()));
+        }
+        jobs.push((4, 8 * msg.len() + 1));
+        jobs.par_iter().for_each(|&(kind, bit)| match kind {
+            0 => {
+                let mut s = sgb;
+                s[bit / 8] ^= 1 << (bit % 8);
+                tamper("signature", bit, &pkb, &msg, &s);
+            }
+            1 => {
+                let mut kx = pkb;
+                kx[bit / 8] ^= 1 << (bit % 8);
+                tamper("key", bit, &kx, &msg, &sgb);
+            }
+            2 => {
+                let mut m = msg.clone();
+                m[bit / 8] ^= 1 << (bit % 8);
+                tamper("message", bit, &pkb, &m, &sgb);
+            }
+            // truncated / extended message (not single-bit, same verdict oracle)
+            3 => tamper("message", bit, &pkb, &msg[..msg.len() - 1], &sgb),
+            _ => {
+                let mut longer = msg.clone();
+                longer.push(0);
+                tamper("message", bit, &pkb, &longer, &sgb);
+            }
+        });
+    });
+
+    // ---- extended keys given as raw bytes: all 32 patterns of the five
+    // clamping bits on 4 base keys; accepted keys must sign like the reference
+    let bases: Vec<[u8; 64]> = vec![[0u8; 64], [0xff; 64], pattern(64, 7).try_into().unwrap(), Sha512::digest([0x42u8; 32]).into()];
+    let ext_msgs: Vec<Vec<u8>> = vec![vec![], pattern(1, 1), pattern(64, 2), pattern(129, 3)];
+    let mut clamp_accepted = 0u64;
+    let mut clamp_rejected = 0u64;
+    let mut clamp_samples: Vec<Value> = vec![];
+    let mut good_keys: Vec<[u8; 64]> = vec![];
+    for (bi, base) in bases.iter().enumerate() {
+        for pat in 0u8..32 {
+            let mut kx = *base;
+            kx[0] = (kx[0] & 0b1111_1000) | (pat & 0b111);
+            kx[31] = (kx[31] & 0b0011_1111) | ((pat >> 3) << 6);
+            let want = (kx[0] & 7) == 0 && (kx[31] & 0x40) != 0 && (kx[31] & 0x80) == 0;
+            c.evals.fetch_add(1, Ordering::Relaxed);
+            let case = json!({"extended_key": hex::encode(kx), "low3": pat & 7, "bit254": (pat >> 3) & 1, "bit255": (pat >> 4) & 1});
+            for (api, r) in [
+                ("from_bytes", catch(|| SecretKeyExtended::from_bytes(kx).is_ok())),
+                ("try_from", catch(|| SecretKeyExtended::try_from(kx).is_ok())),
+            ] {
+                match r {
+                    Err(p) => ctx.violation(p.site(), format!("SecretKeyExtended::{api} panicked: {} at {}", p.message, p.location), case.clone()),
+                    Ok(got) if got != want => ctx.violation(
+                        format!("SecretKeyExtended::from_bytes:{}", if got { "accepts-bad-clamping" } else { "rejects-good-clamping" }),
+                        format!("SecretKeyExtended::{api} returned {} for low bits {:03b}, bit 254 = {}, bit 255 = {}", if got { "Ok" } else { "Err" }, pat & 7, (pat >> 3) & 1, (pat >> 4) & 1),
+                        case.clone(),
+                    ),
+                    Ok(_) => {}
+                }
+            }
+            if want {
+                clamp_accepted += 1;
+            } else {
+                clamp_rejected += 1;
+            }
+            if clamp_samples.len() < 3 && (pat == 8 || pat == 9 || pat == 24) && bi == 2 {
+                clamp_samples.push(json!({"section": "clamping", "case": case, "expected_accept": want}));
+            }
+            if want {
+                good_keys.push(kx);
+            }
+        }
+    }
+    // further well-formed extended keys that are NOT the expansion of a seed
+    for k in 0..12u64 {
+        let mut kx: [u8; 64] = pattern(64, 5000 + k).try_into().unwrap();
+        kx[0] &= 0b1111_1000;
+        kx[31] &= 0b0011_1111;
+        kx[31] |= 0b0100_0000;
+        good_keys.push(kx);
+    }
+    for kx in good_keys.iter().copied() {
+        {
+            let esk = ExpandedSecretKey::from_bytes(&kx);
+            let vk = VerifyingKey::from(&esk);
+            for m in &ext_msgs {
+                c.evals.fetch_add(1, Ordering::Relaxed);
+                let rsig = raw_sign::<Sha512>(&esk, m, &vk).to_bytes();
+                let case = json!({"extended_key": hex::encode(kx), "message": hex::encode(m)});
+                match catch(|| {
+                    let xk = SecretKeyExtended::from_bytes(kx).map_err(|e| e.to_string())?;
+                    let pk = xk.public_key();
+                    let sig = xk.sign(m);
+                    let ok = pk.verify(m, &sig);
+                    let pkb: [u8; 32] = pk.into();
+                    let sgb: [u8; 64] = sig.as_ref().try_into().unwrap();
+                    Ok::<_, String>((pkb, sgb, ok))
+                }) {
+                    Err(p) => ctx.violation(p.site(), format!("SecretKeyExtended public_key/sign/verify panicked: {} at {}", p.message, p.location), case),
+                    Ok(Err(e)) => ctx.violation("SecretKeyExtended::from_bytes:rejects-good-clamping", format!("a correctly clamped extended key was rejected: {e}"), case),
+                    Ok(Ok((pkb, sgb, ok))) => {
+                        let mut good = true;
+                        if pkb != vk.to_bytes() {
+                            good = false;
+                            ctx.violation("SecretKeyExtended::public_key:differs-from-rfc8032", format!("public key {} but scalar * B is {}", hex::encode(pkb), hex::encode(vk.to_bytes())), case.clone());
+                        }
+                        if sgb != rsig {
+                            good = false;
+                            ctx.violation("SecretKeyExtended::sign:differs-from-rfc8032", format!("signature {} but RFC 8032 signing with this (scalar, prefix) gives {}", hex::encode(sgb), hex::encode(rsig)), case.clone());
+                        }
+                        if !ok || !ref_verify(&pkb, m, &sgb).0 {
+                            good = false;
+                            ctx.violation("PublicKey::verify:rejects-own-signature", "signature made by SecretKeyExtended::sign does not verify under its public key".to_string(), case.clone());
+                        }
+                        if good {
+                            c.ext_cases.fetch_add(1, Ordering::Relaxed);
+                        }
+                    }
+                }
+            }
+        }
+    }
+
+    let g = |a: &AtomicU64| a.load(Ordering::Relaxed);
+    if ctx.violation_count() == 0 {
+        if g(&c.sign_cases) != cases.len() as u64 || g(&c.tamper_equation) == 0 || clamp_accepted != 4 || clamp_rejected != 4 * 31 {
+            mc_core::report::machinery_failure(&format!(
+                "C11: enumeration did not reach what it should (sign cases {} of {}, equation-level tamper rejections {}, clamping accepted/rejected {}/{})",
+                g(&c.sign_cases),
+                cases.len(),
+                g(&c.tamper_equation),
+                clamp_accepted,
+                clamp_rejected
+            ));
+        }
+    }
+    if g(&c.tamper_accepted_by_both) > 0 {
+        ctx.note(format!("diagnostic: {} tampered inputs were accepted by both pallas and the reference", g(&c.tamper_accepted_by_both)));
+    }
+    let mut samples: Vec<Value> = vec![
+        json!({"section": "sign/derive", "seed": RFC[1].0, "message": RFC[1].2, "public_key": RFC[1].1, "signature": RFC[1].3}),
+        json!({"section": "tamper", "what": "signature bit 511 (top bit of S) flipped", "seed": hex::encode(seeds[2]), "message_len": 16}),
+        json!({"section": "tamper", "what": "key bit 255 (sign of x) flipped", "seed": hex::encode(seeds[0]), "message_len": 0}),
+    ];
+    samples.extend(clamp_samples);
+    let distinct = g(&c.sign_cases) + g(&c.ext_cases) + g(&c.tamper_equation) + clamp_accepted + clamp_rejected;
+    let cov = cov! {
+        "evaluations" => g(&c.evals),
+        "distinct_nontrivial" => distinct,
+        "rule" => "evaluation = one comparison of pallas with the RFC 8032 reference (ed25519-dalek): per (seed, message) one derive+sign+verify of the standard key, one of the SHA-512-expanded extended key, and one verify per single-bit flip of the signature (512), the public key (256) and the message (8*len, plus one-byte truncation and extension); then 4 base keys x all 32 clamping-bit patterns through from_bytes/try_from, and sign/verify of each accepted key on 4 messages. All cases are distinct inputs by construction. distinct_nontrivial = sign/derive cases on which every comparison was carried out + clamping patterns decided + tampered inputs that the reference parses (key decodes, S < L) and rejects through the verification equation",
+        "samples" => samples,
+        "seeds" => seeds.len(),
+        "message_lengths" => lens.len(),
+        "seed_message_cases" => cases.len(),
+        "tamper_rejected_by_equation" => g(&c.tamper_equation),
+        "tamper_rejected_at_parsing(key does not decode or S >= L)" => g(&c.tamper_parse),
+        "tamper_accepted_by_both" => g(&c.tamper_accepted_by_both),
+        "extended_key_sign_cases" => g(&c.ext_cases),
+        "clamping_patterns_accepted" => clamp_accepted,
+        "clamping_patterns_rejected" => clamp_rejected,
+        "tamper_sets_complete" => true,
+    };
+    ctx.finish(
+        Level::Exploration,
+        cov,
+        &[
+            "reference = ed25519-dalek 2.x `verify` (cofactorless equation, canonical S), validated on the RFC 8032 section 7.1 vectors at start-up",
+            "seeds and messages are a fixed grid (boundary seeds, RFC vectors, pseudo-random fill), not all 2^256",
+            "multi-bit tamperings and adversarially crafted keys/signatures (small-order points, non-canonical encodings) are not enumerated",
+        ],
+    )
+}
